@@ -32,7 +32,7 @@ import time
 from harness import common as C
 
 PID = "C10"
-GEN = []
+GEN = ["C10Consts"]
 
 PREAMBLE = """From Coq Require Import List Arith Bool.
 From NG Require Import V2.Term V2.TermRun V2.Cascade V2.CascadeRun.
@@ -467,6 +467,23 @@ def _worker_setup():
     from nemoguardrails.colang.v2_x.runtime import statemachine as sm
 
     logging.getLogger().setLevel(logging.CRITICAL)
+    # fault injection of ARBITRARY Python exceptions (a runtime-internal failure at a statement position,
+    # like the AssertionError of FlowState.get_event for an unknown event name): the expression
+    # `verif_raise("KeyError")` raises that exception, unwrapped, wherever the interpreter evaluates it
+    import re as _re
+
+    orig_eval = sm.eval_expression
+    kinds = {"AssertionError": AssertionError, "KeyError": KeyError, "AttributeError": AttributeError,
+             "TypeError": TypeError, "ZeroDivisionError": ZeroDivisionError, "RuntimeError": RuntimeError}
+
+    def eval_with_faults(expr, context):
+        if isinstance(expr, str) and "verif_raise(" in expr:
+            m = _re.search(r'verif_raise\(["\'](\w+)["\']\)', expr)
+            if m and m.group(1) in kinds:
+                raise kinds[m.group(1)]("fault injected by the C10 harness")
+        return orig_eval(expr, context)
+
+    sm.eval_expression = eval_with_faults
     return sm
 
 
@@ -510,7 +527,9 @@ def slide_case_from_record(rec, tbl):
             outs.append("OTrue")
     last_t = elems[path[-1]] if path else None
     if rec["exc"] is not None:
-        kind, pos, targets = 4, end, []
+        # the model attributes the exception to the element being executed; the real head may already
+        # have been moved (the position callback of the NEXT match element can raise, too)
+        kind, pos, targets = 4, (path[-1] if path else rec["start"]), []
     elif last_t is not None and last_t[0] == "fork":
         # new heads are created at the label positions
         kind, pos, targets = 1, end, list(rec["new_heads"])
@@ -697,23 +716,38 @@ def run_case_pe(sm, tracer, counter, case):
         res["error"] = "init:" + type(e).__name__ + ":" + str(e)[:200]
         return res
     rt = rails.runtime
-    rt.max_events = 60
+    rt.max_events = int(case.get("max_events", 60))
     sm._VERIF_MAX_STEPS = 3000
+    handled = [0]
+
+    class _TooManyEvents(BaseException):
+        pass
+
+    def watcher(_event):
+        handled[0] += 1
+        if handled[0] > rt.max_events + 5:
+            raise _TooManyEvents()
+
+    rt.watchers.append(watcher)
 
     async def go():
         state = None
         for ev in [None] + list(case["events"]):
             rec = {"status": "ok", "out": []}
+            handled[0] = 0
             try:
                 out, state = await asyncio.wait_for(
-                    rt.process_events([] if ev is None else [_mk_event(sm, ev)], state), 30)
+                    rt.process_events([] if ev is None else [_mk_event(sm, ev)], state), float(case.get("call_timeout", 30)))
                 rec["out"] = [e["type"] for e in out]
+            except _TooManyEvents:
+                rec["status"] = "max_events-exceeded"
             except asyncio.TimeoutError:
                 rec["status"] = "timeout"
             except sm.VerifStepBudgetExceeded:
                 rec["status"] = "budget"
             except Exception as e:
                 rec["status"] = "escaped:" + type(e).__name__ + ":" + str(e)[:120]
+            rec["handled"] = handled[0]
             res["events"].append(rec)
             if rec["status"] != "ok":
                 break
@@ -1195,6 +1229,12 @@ BAD = {
     "wrong-type": '1 + "a"',
     "bad-regex": 'regex("(")',
     "bad-member": "$undef.foo.bar",
+    # plain Python exceptions (not one of the Colang error classes), see _worker_setup
+    "py-AssertionError": 'verif_raise("AssertionError")',
+    "py-KeyError": 'verif_raise("KeyError")',
+    "py-AttributeError": 'verif_raise("AttributeError")',
+    "py-TypeError": 'verif_raise("TypeError")',
+    "py-ZeroDivisionError": 'verif_raise("ZeroDivisionError")',
 }
 
 # statement templates: (name, site, lines with {X} = erroneous expression, is_wait)
@@ -1229,6 +1269,9 @@ MATCH_STMTS = [
     ("match-cmp", "match-param", "match {EV}(p=less_than(3))"),          # event carries p="abc"
     ("match-bad-ref", "match-reference", "match {EV}()\nmatch $nope.Finished()"),
     ("match-bad-member", "match-reference", "match {EV}()\nmatch $undef.foo.Finished()"),
+    # AssertionError of FlowState.get_event, raised from the head-position callback / inside slide
+    ("match-bogus-flow-event", "match-reference", "start child 1 as $cref\nmatch {EV}()\nmatch $cref.Bogus()"),
+    ("send-bogus-flow-event", "match-reference", "start child 1 as $cref\nmatch {EV}()\nsend $cref.Bogus()"),
 ]
 
 
@@ -1322,6 +1365,71 @@ def gen_inject_cases(rng, limit, hist):
     return cases, len(all_cases)
 
 
+# =======================================================================================
+# Generator 3: flows that answer each other with plain events, driven through process_events (which
+# feeds outgoing events back as input events).  Every loop contains a waiting statement and every
+# single run_to_completion ends; what bounds ONE processing cycle is the `max_events` cap.
+
+
+def gen_exchange_cases(rng, n):
+    cases = []
+    for i in range(n):
+        k = rng.randint(2, 4)
+        shape = rng.choice(["ring", "ring", "chain", "counted-ring", "loop-ring", "fan"])
+        m = rng.choice([16, 24, 40])
+        flows = []
+        mains = ["global $n", "$n = 0"]
+        for j in range(k):
+            nxt = f"P{(j + 1) % k}"
+            if shape == "chain" and j == k - 1:
+                nxt = "Done"
+            if shape == "loop-ring":
+                flows.append(f"flow r{j}\n  while True\n    match P{j}()\n    send {nxt}()")
+                mains.append(f"start r{j}")
+            elif shape == "counted-ring" and j == 0:
+                flows.append(f"flow r0\n  global $n\n  match P0()\n  $n = $n + 1\n  if $n < 3\n    send {nxt}()\n  else\n    send Done()")
+                mains.append("activate r0")
+            elif shape == "fan" and j == 0:
+                flows.append(f"flow r0\n  match P0()\n  send P1()\n\nflow r0b\n  match P0()\n  $x = 1")
+                mains += ["activate r0", "activate r0b"]
+            else:
+                flows.append(f"flow r{j}\n  match P{j}()\n  send {nxt}()")
+                mains.append(f"activate r{j}")
+        flows.append("flow greeter\n  match Hello()\n  send HelloBack()")
+        mains += ["activate greeter", "match NeverEvent()"]
+        src = "\n\n".join(flows) + "\n\nflow main\n" + "\n".join("  " + l for l in mains) + "\n"
+        cases.append({"id": f"xchg{i}", "kind": "exchange", "mode": "pe", "src": src, "events": ["P0", "Hello", "P0"],
+                      "max_events": m, "call_timeout": 20, "shape": shape, "flows": k})
+    return cases
+
+
+def exchange_verdict(case, r):
+    if r.get("hang"):
+        return [("does-not-return", "worker watchdog: process_events did not return")]
+    if r.get("crash"):
+        return [("interpreter-crash", r.get("stderr", "")[-200:])]
+    if r.get("error"):
+        return [("harness-error", r["error"])]
+    bad = []
+    m = case["max_events"]
+    for k, e in enumerate(r["events"]):
+        if e["status"] == "timeout":
+            return [("does-not-return", f"process_events call #{k} did not return within {case.get('call_timeout', 30)} s ({e.get('handled')} events handled so far, max_events={m})")]
+        if e["status"] == "max_events-exceeded" or e.get("handled", 0) > m:
+            return [("handles-more-than-max_events", f"process_events call #{k} handled {e.get('handled')} events, max_events={m}")]
+        if e["status"] != "ok":
+            return [("exception-escapes-process_events", e["status"])]
+    ev = r["events"]
+    if len(ev) >= 2 and "P1" not in ev[1].get("out", []):
+        bad.append(("flows-do-not-answer", f"no P1 among the outputs of the first P0: {ev[1].get('out', [])[:6]}"))
+    if case["shape"] in ("chain", "counted-ring") and len(ev) >= 2:
+        if "Done" not in ev[1].get("out", []) or ev[1].get("handled", 0) >= m:
+            bad.append(("terminating-exchange-cut-off", f"the exchange ends by itself after few events, got {ev[1].get('out', [])[-4:]} after {ev[1].get('handled')} handled events (max_events={m})"))
+    if len(ev) >= 3 and "HelloBack" not in ev[2].get("out", []):
+        bad.append(("later-event-not-processed", f"the unrelated flow did not answer Hello after the exchange: {ev[2].get('out', [])[:6]}"))
+    return bad
+
+
 def scenario_verdict(case, r):
     """Corpus kind "scenario": a program, events and the expected observable reactions
     (expect.out[k] = event types that must be among the outputs of event k (0 = start of main),
@@ -1336,6 +1444,8 @@ def scenario_verdict(case, r):
     for k, e in enumerate(r["events"]):
         if e["status"] == "budget":
             return [("event-processing-does-not-terminate", f"event #{k}: step budget {e.get('budget')} exceeded")]
+        if e["status"] in ("timeout", "max_events-exceeded"):
+            return [("process_events-does-not-return", f"event #{k}: {e['status']} after {e.get('handled')} handled events")]
         if e["status"] != "ok":
             return [("exception-escapes-process_events", e["status"])]
     exp = case.get("expect", {})
@@ -1522,6 +1632,11 @@ def run(tier, seed, replay=None):
             c2["mode"] = "pe"
             pe.append(c2)
         cases += pe
+    n_xchg = 0
+    if not replay:
+        xc = gen_exchange_cases(rng, int((14 if quick else 120) * scale))
+        n_xchg = len(xc)
+        cases += xc
     by_id = {c["id"]: c for c in cases}
     dirs = shipped_dirs() if not replay else []
     nship = 8
@@ -1564,6 +1679,7 @@ def run(tier, seed, replay=None):
             findings[sig] = (w, p0, n + 1)
 
     restart_obs = {}
+    xchg_handled = []
     observations = {}
     for c in cases:
         r = results.get(c["id"], {"error": "missing"})
@@ -1614,6 +1730,16 @@ def run(tier, seed, replay=None):
         elif kind == "observe":
             observations[c["name"]] = ("does not terminate (step budget exceeded)" if any(e["status"] == "budget" for e in r.get("events", []))
                                        else "hang" if r.get("hang") else "terminates" if not r.get("error") else r.get("error"))
+        elif kind == "exchange":
+            for what, det in exchange_verdict(c, r):
+                if what == "harness-error":
+                    if not str(det).startswith("init:"):
+                        out.add_broken("harness:exchange-case", f"{c['id']}: {det}")
+                    continue
+                add_finding(f"process_events:event-exchange:{what}", f"flows answering each other with plain events ({c.get('shape')}, {c.get('flows')} flows): {det}",
+                            {"kind": "exchange", "mode": "pe", "src": c["src"], "events": c["events"], "max_events": c["max_events"],
+                             "call_timeout": c.get("call_timeout", 20), "shape": c.get("shape"), "flows": c.get("flows"), "observed": det})
+            xchg_handled.append(max([e.get("handled", 0) for e in r.get("events", [])] + [0]))
         elif kind == "scenario":
             for what, det in scenario_verdict(c, r):
                 if what == "harness-error":
@@ -1784,6 +1910,7 @@ def run(tier, seed, replay=None):
             "shipped_unguarded_flows": shipped_unguarded[:20], "flows_checked_by_guardedb": len(g_terms), "unguarded_flows": len(unguarded),
             "cascade_bound": bound_stats, "restart_decisions": restart_stats,
             "observations_outside_the_premise": observations,
+            "event_exchange_through_process_events": {"programs": n_xchg, "max_events_handled_in_one_call": max(xchg_handled + [0])},
         },
         "traces_validated_against_impl": len(slide_terms),
         "correspondence_disagreements": len(slide_bad) + len(g_bad),
